@@ -12,7 +12,7 @@ import python_on_whales
 logging.disable(logging.CRITICAL)
 from python_on_whales import SCENARIO
 
-BASE = Path(os.environ.get("VERIF_SCRATCH", "/tmp")) / f"c17-{os.getpid()}"
+BASE = Path(os.environ.get("VERIF_SCRATCH", "/tmp")) / (("verif-" + os.environ["VERIF_RUN_ID"]) if os.environ.get("VERIF_RUN_ID") else "") / f"c17-{os.getpid()}"
 _counter = [0]
 
 
